@@ -115,7 +115,8 @@ def make_ops(rng, cfg, profile, tier):
         elif r < 0.82:
             ops.append({'op': 'TOML', 'a': [], 'values': _toml_values(rng),
                         'spelling': rng.choice(['True', 'true', 'Yes', 'yes']),
-                        'values2': _toml_values(rng) if rng.random() < 0.6 else None})
+                        'values2': _toml_values(rng) if rng.random() < 0.6 else None,
+                        'fname': rng.choice(['params.toml', 'params.toml', '.biogeme.toml', 'my params.toml', '.est.toml'])})
         elif r < 0.92:
             ops.append({'op': 'PLANT', 'a': [mi, rng.choice(EXTS + ['dat', 'csv']),
                                              rng.choice(['base', 'gap', 'many', 'dir', 'empty', 'other', 'first3'])]})
@@ -518,21 +519,23 @@ class Session:
                 ctx.log(kind, model)
         elif kind == 'TOML':
             from biogeme.parameters import Parameters
+            # the file name is the user's: hidden files and names with blanks are ordinary names
+            tfile = op.get('fname') or 'params.toml'
             p = Parameters()
             for k, v in op['values'].items():
                 p.set_value(k, v)
-            self.exempt_now = {'params.toml'}
-            ok, _ = self._lib('I14.4.raise', p.dump_file, 'params.toml')
+            self.exempt_now = {tfile}
+            ok, _ = self._lib('I14.4.raise', p.dump_file, tfile)
             if ok:
                 if op.get('spelling') and op['spelling'] != 'True':
                     # the same file with booleans in another accepted spelling
-                    txt = read_bytes('params.toml').decode('utf-8').replace('"True"', f'"{op["spelling"]}"')
+                    txt = read_bytes(tfile).decode('utf-8').replace('"True"', f'"{op["spelling"]}"')
                     no = {'True': 'False', 'true': 'false', 'Yes': 'No', 'yes': 'no'}[op['spelling']]
                     txt = txt.replace('"False"', f'"{no}"')
-                    with REAL_OPEN('params.toml', 'w', encoding='utf-8') as f:
+                    with REAL_OPEN(tfile, 'w', encoding='utf-8') as f:
                         f.write(txt)
                 q = Parameters()
-                ok2, _ = self._lib('I14.4.raise', q.read_file, 'params.toml')
+                ok2, _ = self._lib('I14.4.raise', q.read_file, tfile)
                 if ok2:
                     for key, tup in p.all_parameters_dict.items():
                         want = tup.value
@@ -550,12 +553,12 @@ class Session:
                         for who, obj in (('read', q), ('dumped', p)):
                             for k, v in op['values2'].items():
                                 obj.set_value(k, v)
-                            self.exempt_now = {'params.toml'}
-                            ok3, _ = self._lib('I14.4.raise', obj.dump_file, 'params.toml')
+                            self.exempt_now = {tfile}
+                            ok3, _ = self._lib('I14.4.raise', obj.dump_file, tfile)
                             if not ok3:
                                 break
                             r3 = Parameters()
-                            ok4, _ = self._lib('I14.4.raise', r3.read_file, 'params.toml')
+                            ok4, _ = self._lib('I14.4.raise', r3.read_file, tfile)
                             if not ok4:
                                 break
                             for key, tup in obj.all_parameters_dict.items():
